@@ -14,9 +14,9 @@ from fractions import Fraction as F
 
 from . import term as T
 from .interp import AnalysisError, BoundModel, Interp, Opaque, RaiseSignal, SVar
-from .scipp_model import Model, _bind
+from .scipp_model import Model, _bind, norm_dtype
 from .term import Rat
-from .units import DIMENSIONLESS, NO_UNIT, Unit
+from .units import DIMENSIONLESS, NO_UNIT, Unit, parse_unit
 
 
 _NOUNIT = object()
@@ -335,6 +335,14 @@ class WitnessModel(Model):
                     r.view_of = recv
                 return r
             if name in ('to', 'astype'):
+                if kwargs.get('copy') is False:
+                    # scipp hands out the array itself when neither the unit nor the dtype changes
+                    want_u = kwargs.get('unit', None)
+                    want_u = parse_unit(want_u) if isinstance(want_u, str) else want_u
+                    want_d = kwargs.get('dtype', args[0] if (args and name == 'astype') else None)
+                    want_d = norm_dtype(want_d) if want_d is not None else None
+                    if (want_u is None or (isinstance(want_u, Unit) and recv.unit == want_u)) and (want_d is None or want_d == recv.dtype):
+                        return recv
                 return self._map(interp, recv, lambda x: super(WitnessModel, self).call_method(interp, x, name, args, kwargs, node))
             if name in ('flatten',):
                 to = kwargs.get('to')
